@@ -61,6 +61,8 @@ enum Subj {
     MB,
     MU,
     JA,
+    /// buffered_unordered(n) over an upstream that hands out all n futures at once
+    BU,
 }
 
 #[derive(Clone, Copy, Debug, PartialEq, Eq, Serialize, Deserialize)]
@@ -420,7 +422,26 @@ impl Wake for TaskW {
     }
 }
 
+struct UpIter {
+    next: usize,
+    n: usize,
+    sh: Arc<Shared>,
+}
+impl Stream for UpIter {
+    type Item = SFut;
+    fn poll_next(mut self: Pin<&mut Self>, _cx: &mut Context<'_>) -> Poll<Option<SFut>> {
+        if self.next < self.n {
+            let i = self.next;
+            self.next += 1;
+            Poll::Ready(Some(SFut { id: i, sh: self.sh.clone() }))
+        } else {
+            Poll::Ready(None)
+        }
+    }
+}
+
 enum Coll {
+    BU(Pin<Box<BufferUnordered<UpIter>>>),
     UB(FuturesUnorderedBounded<SFut>),
     UU(FuturesUnordered<SFut>),
     OB(FuturesOrderedBounded<SFut>),
@@ -474,6 +495,7 @@ impl Coll {
             }
         }
         match self {
+            Coll::BU(c) => f(c.as_mut().poll_next(cx)),
             Coll::UB(c) => f(Pin::new(c).poll_next(cx)),
             Coll::UU(c) => f(Pin::new(c).poll_next(cx)),
             Coll::OB(c) => f(Pin::new(c).poll_next(cx)),
@@ -618,7 +640,7 @@ fn execution(sc: &Scenario) {
             ..Ledger::default()
         }
     });
-    let n = (sc.n as usize).clamp(1, 6);
+    let n = (sc.n as usize).clamp(1, 80);
     let is_merge = matches!(sc.subj, Subj::MB | Subj::MU);
     // extra children may be pushed later
     let pushes = sc.poller.iter().filter(|p| matches!(p, POp::Push)).count();
@@ -660,8 +682,16 @@ fn execution(sc: &Scenario) {
         Subj::MB => Coll::MB((0..n).map(ms).collect()),
         Subj::MU => Coll::MU((0..n).map(ms).collect()),
         Subj::JA => Coll::JA(join_all((0..n).map(mk))),
+        Subj::BU => Coll::BU(Box::pin(
+            UpIter {
+                next: 0,
+                n,
+                sh: sh.clone(),
+            }
+            .buffered_unordered(cap.max(1)),
+        )),
     });
-    let bounded = matches!(sc.subj, Subj::UB | Subj::OB | Subj::MB | Subj::JA);
+    let bounded = matches!(sc.subj, Subj::UB | Subj::OB | Subj::MB | Subj::JA | Subj::BU);
     let gb = coll.as_ref().unwrap().group_blocks();
     LEDGER.with(|l| {
         let mut l = l.borrow_mut();
@@ -669,6 +699,8 @@ fn execution(sc: &Scenario) {
         l.live_groups = gb;
     });
     let mut held = n;
+    // which children are (or were) really inside the collection: the first n, and every accepted push
+    let mut inside: Vec<bool> = (0..total).map(|i| i < n).collect();
     let mut yielded: Vec<bool> = vec![false; total];
     let mut items: Vec<u32> = vec![0; total];
     let mut order: Vec<usize> = Vec::new();
@@ -766,7 +798,7 @@ fn execution(sc: &Scenario) {
                         c.push(ms(i));
                         true
                     }
-                    Coll::JA(_) => false,
+                    Coll::JA(_) | Coll::BU(_) => false,
                 };
                 let gb = coll.as_ref().unwrap().group_blocks();
                 LEDGER.with(|l| {
@@ -775,6 +807,7 @@ fn execution(sc: &Scenario) {
                     l.live_groups = gb;
                 });
                 if ok {
+                    inside[i] = true;
                     held += 1;
                     // a push after a Pending poll is not notified; the executor below polls again anyway
                     last_pending = false;
@@ -850,6 +883,13 @@ fn execution(sc: &Scenario) {
     if coll.is_some() && !resolved {
         let is_join = matches!(sc.subj, Subj::JA);
         for i in 0..next_push {
+            if inside[i] && sh.poll_started[i].load(Ordering::SeqCst) == 0 {
+                fail(
+                    1,
+                    "C01/lost-wake/quiescent/never-polled",
+                    format!("task asleep (waker {last_k} not invoked since its last poll began) but child {i} has been in the collection since before that poll and was never polled"),
+                );
+            }
             if is_merge {
                 if sh.done[i].load(Ordering::SeqCst) {
                     // items made available after the source had ended do not exist
@@ -997,11 +1037,11 @@ fn scenario(prop: u32) -> impl Strategy<Value = Scenario> {
     let subj = if prop == 3 {
         prop_oneof![4 => Just(Subj::UB), 4 => Just(Subj::UU), 1 => Just(Subj::OU), 1 => Just(Subj::MB), 2 => Just(Subj::MU)].boxed()
     } else {
-        prop_oneof![4 => Just(Subj::UB), 4 => Just(Subj::UU), 1 => Just(Subj::OB), 2 => Just(Subj::OU), 3 => Just(Subj::MB), 3 => Just(Subj::MU), 1 => Just(Subj::JA)].boxed()
+        prop_oneof![4 => Just(Subj::UB), 4 => Just(Subj::UU), 1 => Just(Subj::OB), 2 => Just(Subj::OU), 3 => Just(Subj::MB), 3 => Just(Subj::MU), 1 => Just(Subj::JA), 2 => Just(Subj::BU)].boxed()
     };
-    (subj, 1u8..5, 0u8..3, 1usize..4, prop::bool::weighted(if prop == 3 { 0.5 } else { 0.1 }), prop_oneof![3 => Just(0u8), 1 => 1u8..4])
+    (subj, prop_oneof![24 => 1u8..5, 1 => 60u8..72], 0u8..3, 1usize..4, prop::bool::weighted(if prop == 3 { 0.5 } else { 0.1 }), prop_oneof![3 => Just(0u8), 1 => 1u8..4])
         .prop_flat_map(|(subj, n, extra, nt, de, pct)| {
-            let pushable = !matches!(subj, Subj::JA);
+            let pushable = !matches!(subj, Subj::JA | Subj::BU);
             let pop = if pushable {
                 prop_oneof![6 => (0u8..2).prop_map(POp::Poll), 2 => Just(POp::Yield), 1 => Just(POp::Push)].boxed()
             } else {
